@@ -3,8 +3,6 @@
 package protojson
 
 import (
-	"math/bits"
-
 	"google.golang.org/protobuf/internal/zzverif/nd"
 )
 
@@ -55,20 +53,14 @@ func refDuration(s string) (secs int64, nanos int32, verdict int) {
 	if intDigits > 1 && b[0] == '0' {
 		return 0, 0, -1
 	}
-	// an integer part that does not fit in int64 cannot be represented: must be rejected
-	var us uint64
-	fits := true
+	// up to 18 digits always fit in int64; longer integer parts are the subject of
+	// H_C23_duration_limits (this reference does not specify them)
+	if intDigits > 18 {
+		return 0, 0, -1
+	}
 	for k := 0; k < intDigits; k++ {
-		hi, lo := bits.Mul64(us, 10)
-		sum, c := bits.Add64(lo, uint64(b[k]-'0'), 0)
-		f := hi == 0 && c == 0
-		fits = fits && f
-		us = sum
+		secs = secs*10 + int64(b[k]-'0')
 	}
-	if !fits || us > 1<<63-1 {
-		return 0, 0, 0
-	}
-	secs = int64(us)
 	var ns int32
 	for k := 0; k < 9; k++ {
 		ns *= 10
